@@ -22,8 +22,10 @@ P("C43",
              "random values of it through the real json.Marshal/Unmarshal, compared exactly with the model's verdict and "
              "round-trip result; the reflect.Type -> descriptor translator (harness/internal/jm). Not modelled: the ,string "
              "option (flagged, excluded from plain; omitzero IS modelled), case-insensitive key matching and duplicate object keys on "
-             "decode (never produced by the encoder), float text (opaque tokens), recursive types (the real validator does not "
-             "terminate on them; not generated).",
+             "decode (never produced by the encoder), float text (opaque tokens), recursive types as values: since fix e1ef1362 the validator rejects a type that "
+             "contains itself (before it, the walk never returned: F-C43-4); hand-written recursive types (through a slice, a map, "
+             "mutually through an array of slices) are validated in a child process with a 1 MiB stack bound and a deadline, their "
+             "back-edge is the descriptor TOther, which the model rejects.",
   assumptions=["a Go value is represented by its tree of field values; slices/maps distinguish nil from empty; map values are "
                "listed in the order encoding/json emits them (sorted by key text)",
                "well-formed values: integers within their kind, strings valid UTF-8, floats finite and not -0 "
